@@ -250,6 +250,43 @@ def part_graders(ctx):
                 ctx.disagree('grader verdict differs from the model', case, got, o)
 
 
+def part_sampled_functions(ctx):
+    """author and student are compared on the SAME sample at EVERY sample - also when the only thing that is sampled is a function
+    (RandomFunction / SpecificFunctions / a list of callables) or a numbered / dependent variable and the answer mentions no plain variable:
+    algebraically identical rewritings of the answer always earn its full credit; a formula that misses everywhere earns none"""
+    import numpy as np
+    from mitxgraders import FormulaGrader, MatrixGrader, RandomFunction, SpecificFunctions, RealInterval, DependentSampler, RealVectors
+    rng = ctx.rng
+    setups = [
+        ('random-function-constant-arg', dict(user_functions={'f': RandomFunction()}), 'f(0)', ['f(0)', 'f(0) + 0', '1*f(0)', 'f(1-1)'], ['f(0) + 1', 'f(1)']),
+        ('random-function-difference', dict(user_functions={'f': RandomFunction(), 'g': RandomFunction(center=1)}), 'f(pi) - g(0)', ['f(pi) - g(0)', '0 - g(0) + f(pi)'], ['f(pi) + g(0)']),
+        ('specific-functions', dict(user_functions={'f': SpecificFunctions([np.sin, np.cos, np.exp, np.tan])}), 'f(1)', ['f(1)', 'f(1)*1', 'f(2-1)'], ['f(2)']),
+        ('list-of-callables', dict(user_functions={'f': [np.sin, np.cos, np.exp]}), '2*f(0.5)', ['2*f(0.5)', 'f(0.5) + f(0.5)'], ['f(0.5)']),
+        ('random-function-and-variable', dict(user_functions={'f': RandomFunction()}, variables=['x']), 'f(x) + f(0)', ['f(x) + f(0)', 'f(0) + f(x)'], ['f(x)']),
+        ('numbered-only', dict(numbered_vars=['a'], sample_from={'a': RealInterval([1, 5])}), 'a_{1} + 2*a_{2}', ['a_{1} + 2*a_{2}', 'a_{2} + a_{1} + a_{2}'], ['a_{1} + a_{2}']),
+        ('dependent-only', dict(variables=['x', 'y'], sample_from={'x': RealInterval([1, 5]), 'y': DependentSampler(depends=['x'], formula='x^2')}), 'y + 1', ['y + 1', 'x^2 + 1', '1 + x*x'], ['y', 'x + 1']),
+        ('vector-random-function', dict(user_functions={'f': RandomFunction(output_dim=2)}, max_array_dim=1), 'f(0)', ['f(0)', '2*f(0) - f(0)'], ['2*f(0)']),
+    ]
+    for it in range(ctx.scale(32, 320)):
+        name, kw, ans, same, different = setups[it % len(setups)]
+        samples = rng.choice([2, 3, 5, 8])
+        fe = rng.choice([0, 0, 1]) if samples > 2 else 0
+        try:
+            g = FormulaGrader(answers=ans, samples=samples, failable_evals=fe, tolerance=1e-9, **kw)
+        except Exception as e:
+            ctx.count('sampled:config_rejected:' + type(e).__name__); continue
+        for stu, want in [(s_, True) for s_ in same] + [(s_, False) for s_ in different]:
+            k, v = D.run_impl(lambda: g(None, stu))
+            case = {'part': 'sampled-functions', 'setup': name, 'answer': ans, 'student': stu, 'samples': samples, 'failable_evals': fe}
+            if k == 'err':
+                ctx.violation('a well-formed formula raised %s' % (v[1],), case, impl=v)
+            elif want and v['ok'] is not True:
+                ctx.violation('an algebraically identical rewriting of the answer does not earn its credit (author and student not evaluated on the same sample?)', case, impl=GG.canon_result(v))
+            elif not want and v['ok'] is not False:
+                ctx.violation('a formula that differs from the answer at every sample earned credit', case, impl=GG.canon_result(v))
+            ctx.case({'setup': name, 'student': stu, 'ok': v.get('ok') if k == 'out' else v[1]}, nontrivial_key=(name, stu, samples, fe), kind='sampled:' + name)
+
+
 def part_validators(ctx):
     """the tolerance option is validated: non-negative number or non-negative percentage string"""
     from mitxgraders import FormulaGrader
@@ -263,6 +300,7 @@ def part_validators(ctx):
 def run(ctx):
     part_within(ctx)
     part_graders(ctx)
+    part_sampled_functions(ctx)
     part_validators(ctx)
 
 
